@@ -109,3 +109,124 @@ def problems(objs, check):
     if which.startswith("I3") or not which:
         out += c02_problems(allobjs)
     return out
+
+
+# ------------------------------------------------------------------------------------------------
+# C19 oracle: a listener that merely replays announcements must end up with an exact mirror
+from spydrnet.callback.callback_listener import CallbackListener
+
+
+def _pin_key(pin):
+    if isinstance(pin, sdn.OuterPin):
+        return ("outer", id(pin.instance), id(pin.inner_pin))
+    return ("inner", id(pin))
+
+
+class MirrorListener(CallbackListener):
+    ADD = {"cable_add_wire": "cable", "definition_add_port": "definition",
+           "definition_add_child": "parent", "definition_add_cable": "definition",
+           "library_add_definition": "library", "netlist_add_library": "netlist",
+           "port_add_pin": "port"}
+    REMOVE = {"cable_remove_wire": "cable", "definition_remove_port": "definition",
+              "definition_remove_child": "parent", "definition_remove_cable": "definition",
+              "library_remove_definition": "library", "netlist_remove_library": "netlist",
+              "port_remove_pin": "port"}
+
+    def __init__(self, allobjs):
+        super().__init__()
+        self.events = []
+        self.not_before = []
+        self.parent = {}
+        self.wire_of = {}
+        self.reference = {}
+        self.top = {}
+        self.data = {}
+        for o in allobjs:
+            for P, lst, C, back in PAIRS:
+                if isinstance(o, C):
+                    self.parent[id(o)] = id(getattr(o, back)) if getattr(o, back) is not None else None
+            if isinstance(o, sdn.InnerPin) and o.wire is not None:
+                self.wire_of[_pin_key(o)] = id(o.wire)
+            if isinstance(o, sdn.Instance):
+                self.reference[id(o)] = id(o.reference) if o.reference is not None else None
+                for op in o._pins.values():
+                    if op.wire is not None:
+                        self.wire_of[_pin_key(op)] = id(op.wire)
+            if isinstance(o, sdn.Netlist):
+                self.top[id(o)] = id(o.top_instance) if o.top_instance is not None else None
+            if hasattr(o, "_data"):
+                self.data[id(o)] = dict(o._data)
+
+    def _ev(self, kind, *args):
+        self.events.append((kind, args))
+
+
+def _mk(kind):
+    def handler(self, *args):
+        self.events.append(kind)
+        if kind in self.ADD:
+            back = self.ADD[kind]
+            if getattr(args[1], back) is args[0]:
+                self.not_before.append(kind)
+            self.parent[id(args[1])] = id(args[0])
+        elif kind in self.REMOVE:
+            back = self.REMOVE[kind]
+            if getattr(args[1], back) is not args[0]:
+                self.not_before.append(kind)
+            self.parent[id(args[1])] = None
+        elif kind == "wire_connect_pin":
+            pin = args[1]
+            if isinstance(pin, sdn.OuterPin) and pin.instance is not None and pin.inner_pin in pin.instance.pins:
+                pin = pin.instance.pins[pin.inner_pin]      # the pin the announcement identifies
+            if pin is not None and pin.wire is args[0]:
+                self.not_before.append(kind)
+            if args[1] is not None:
+                self.wire_of[_pin_key(args[1])] = id(args[0])
+        elif kind == "wire_disconnect_pin":
+            self.wire_of.pop(_pin_key(args[1]), None)
+        elif kind == "instance_reference":
+            self.reference[id(args[0])] = id(args[1]) if args[1] is not None else None
+        elif kind == "netlist_top_instance":
+            self.top[id(args[0])] = id(args[1]) if args[1] is not None else None
+        elif kind == "dictionary_set":
+            self.data.setdefault(id(args[0]), {})[args[1]] = args[2]
+        elif kind in ("dictionary_delete", "dictionary_pop"):
+            self.data.setdefault(id(args[0]), {}).pop(args[1], None)
+    return handler
+
+
+for _k in list(MirrorListener.ADD) + list(MirrorListener.REMOVE) + [
+        "wire_connect_pin", "wire_disconnect_pin", "instance_reference", "netlist_top_instance",
+        "dictionary_set", "dictionary_delete", "dictionary_pop", "create_netlist", "create_library",
+        "create_definition", "create_port", "create_cable", "create_instance"]:
+    setattr(MirrorListener, _k, _mk(_k))
+
+
+def mirror_problems(lst, allobjs, skip_outer=False):
+    out = []
+    for o in allobjs:
+        for P, l, C, back in PAIRS:
+            if isinstance(o, C):
+                real = id(getattr(o, back)) if getattr(o, back) is not None else None
+                if lst.parent.get(id(o)) != real:
+                    out.append("mirror thinks %s has another %s" % (C.__name__, back))
+        if isinstance(o, sdn.InnerPin):
+            real = id(o.wire) if o.wire is not None else None
+            if lst.wire_of.get(_pin_key(o)) != real:
+                out.append("mirror disagrees on the wire of an inner pin")
+        if isinstance(o, sdn.Instance):
+            real = id(o.reference) if o.reference is not None else None
+            if lst.reference.get(id(o)) != real:
+                out.append("mirror disagrees on an instance's reference")
+            if not skip_outer:
+                for op in o._pins.values():
+                    real = id(op.wire) if op.wire is not None else None
+                    if lst.wire_of.get(_pin_key(op)) != real:
+                        out.append("mirror disagrees on the wire of an outer pin")
+        if isinstance(o, sdn.Netlist):
+            real = id(o.top_instance) if o.top_instance is not None else None
+            if lst.top.get(id(o)) != real:
+                out.append("mirror disagrees on the top instance")
+        if hasattr(o, "_data") and lst.data.get(id(o), {}) != dict(o._data):
+            out.append("mirror disagrees on element data")
+    return out
